@@ -87,6 +87,9 @@ impl Scenario for C05 {
         }
     }
     fn plan(&self, seed: u64, run: u64, tier: Tier) -> Plan {
+        if run < 6 {
+            return large_params(seed, run, tier);
+        }
         let thorough = tier == Tier::Thorough;
         let mut r0 = crate::prng::Rng::derive(seed, "c05-nodes", run);
         // k1.seal is slow (RSA-4096); keep v1 runs at their natural 1/6 share
@@ -113,6 +116,35 @@ impl Scenario for C05 {
         }
         b.finish()
     }
+}
+
+/// Runs 0..6: one backend each, valid but *large* cost parameters (a work factor above any
+/// round number a hardening patch might pick), wrapped and read back.
+fn large_params(seed: u64, run: u64, tier: Tier) -> Plan {
+    let bk = Bk::ALL[(run % 6) as usize];
+    let mut nodes = vec![bk];
+    if let Some(s) = bk.sibling() {
+        nodes.push(s);
+    }
+    let mut b = Builder::new("C05", seed, run, nodes.clone());
+    let fk = b.family_keys(bk.family(), false).unwrap();
+    let params: Vec<PwParams> = match (bk.family(), tier) {
+        (1 | 3, Tier::Quick) => vec![PwParams::Iter(100_001), PwParams::Iter(1_000_001)],
+        (1 | 3, Tier::Thorough) => vec![PwParams::Iter(65_537), PwParams::Iter(1_000_001), PwParams::Iter(1_048_577), PwParams::Iter(4_000_000)],
+        (_, Tier::Quick) => vec![PwParams::Argon(65 * 1024 * 1024, 1, 1), PwParams::Argon(8 * 1024 * 1024, 4, 1)],
+        (_, Tier::Thorough) => vec![PwParams::Argon(129 * 1024 * 1024, 1, 1), PwParams::Argon(1025 * 1024 * 1024, 1, 1), PwParams::Argon(8 * 1024 * 1024, 11, 1)],
+    };
+    for p in params {
+        let blob = b.blob_slot();
+        let with = SecretRef::Password { bytes: Bytes::hex(b"large parameters") };
+        let rng = b.healthy_rng();
+        let key = if b.rng.bool() { fk.local } else { fk.secret };
+        b.push(Step::Wrap { blob, node: 0, wk: WrapKind::Pw, key, with: with.clone(), params: p, rng });
+        for node in 0..nodes.len() {
+            b.push(Step::Unwrap { blob, node, with: with.clone(), faults: vec![], as_kind: None });
+        }
+    }
+    b.finish()
 }
 
 const HEADS: [(WrapKind, Kind); 5] = [(WrapKind::Pie, Kind::Local), (WrapKind::Pie, Kind::Secret), (WrapKind::Pw, Kind::Local), (WrapKind::Pw, Kind::Secret), (WrapKind::Pke, Kind::Local)];
@@ -167,6 +199,11 @@ impl Scenario for C06 {
     }
     fn assumptions(&self) -> Vec<String> {
         vec!["password-wrapped blobs whose (possibly corrupted) cost parameters exceed 64 MiB / 3 passes / 100000 iterations are not executed (counted under skipped:cost-budget)".into()]
+    }
+    fn adopts(&self, v: &crate::world::Violation) -> bool {
+        // every plan of this check also reads its blobs fault-free with the right secret, before and
+        // after the faulted reads: if that fails, a failed read has left something behind
+        matches!((v.property, v.class.as_str()), ("C05", "authentic-blob-rejected" | "roundtrip-mismatch"))
     }
     fn plan(&self, seed: u64, run: u64, tier: Tier) -> Plan {
         let slices = if tier == Tier::Quick { 1 } else { 16 };
